@@ -27,10 +27,10 @@ static std::string shape(World &w, const Root &rt, int t, int d, int fm, bool wi
     gr_segment *s = gr_make_seg(withfont ? w.font : nullptr, w.face, 0, fv, gr_utf8, tx.c_str(), utf8_count(tx), d);
     SegDumpOpts o; o.face = w.face; o.font = withfont ? w.font : nullptr; std::string dmp = dump_segment(s, o); if (s) gr_seg_destroy(s); gr_featureval_destroy(fv); return dmp;
 }
-static std::string probes(World &w, const Root &rt) {
-    std::string all; for (int t = 0; t < int(rt.texts.size()); ++t) for (int d : { 0, 1, 3 }) for (int fm = 0; fm < 3; ++fm) for (int wf = 0; wf < 2; ++wf) { all += shape(w, rt, t, d, fm, wf); all += "#\n"; }
-    all += dump_face(w.face); return all;
-}
+// probe list: (text, dir, feature mode, with font) ... and the face dump as the last probe
+struct Probe { int t, d, fm, wf; };
+static std::vector<Probe> probe_list(const Root &rt) { std::vector<Probe> v; for (int t = 0; t < int(rt.texts.size()); ++t) for (int d : { 0, 1, 3 }) for (int fm = 0; fm < 3; ++fm) for (int wf = 0; wf < 2; ++wf) v.push_back({ t, d, fm, wf }); v.push_back({ -1, 0, 0, 0 }); return v; }
+static std::string run_probe(World &w, const Root &rt, const Probe &p) { return p.t < 0 ? dump_face(w.face) : shape(w, rt, p.t, p.d, p.fm, p.wf != 0); }
 enum { OP_SEG0 = 0, /* texts(<=4) x dir(2) x feat(2) x font(2) = 32 */ OP_D0 = 32, OP_D1, OP_JUST, OP_BREAK, OP_LABEL, OP_VLABEL, OP_FVAL, OP_SUPP, OP_FDUMP, OP_FONT2, OP_DFONT2, NOPS };
 static bool enabled(const World &w, const Root &rt, int o) {
     if (o < OP_D0) { int t = o / 8; return t < int(rt.texts.size()) && !(w.seg[0] && w.seg[1]); }
@@ -74,7 +74,9 @@ static void setup(Runner &r, const Tier &t) {
         const Root &rt = g_roots[ci / 2]; bool plain = ci % 2; TableSet ts; ts.from_file(rt.font);
         auto make = [&](World &w) { w.ts = ts; w.mf.ts = &w.ts; w.face = w.mf.make(rt.opts); if (!w.face) return false; w.font = rt.hinted ? gr_make_font_with_advance_fn(16.f, &w, adv_cb, w.face) : gr_make_font(16.f, w.face); return w.font != nullptr; };
         auto close = [&](World &w) { for (int k = 0; k < 2; ++k) if (w.seg[k]) gr_seg_destroy(w.seg[k]); if (w.font2) gr_font_destroy(w.font2); if (w.font) gr_font_destroy(w.font); if (w.face) gr_face_destroy(w.face); };
-        std::string fresh; { World w; if (!make(w)) { close(w); return; } fresh = probes(w, rt); close(w); }
+        // reference: every probe on its OWN fresh face and font (a probe must not depend on the probes before it either)
+        std::vector<Probe> pl = probe_list(rt); std::vector<std::string> fresh;
+        for (auto &p : pl) { World w; if (!make(w)) { close(w); return; } fresh.push_back(run_probe(w, rt, p)); close(w); }
         int maxdepth = plain ? (g_thor ? 3 : 2) : (g_thor ? 6 : 4); bool big = rt.font.find("Padauk") != std::string::npos; if (big) maxdepth = plain ? 1 : 2;
         struct Node { std::vector<int> hist; }; std::deque<Node> q; q.push_back({ {} }); std::set<std::string> seen; uint64_t states = 0, trans = 0; bool failed = false, frontier_emptied = true;
         while (!q.empty() && !failed) {
@@ -83,10 +85,11 @@ static void setup(Runner &r, const Tier &t) {
             std::string key = state_key(w);
             bool isnew = plain || seen.insert(key).second;
             if (isnew) {
-                ++states; std::string got = probes(w, rt);
-                if (got != fresh) { std::string hs; for (int o : n.hist) hs += std::to_string(o) + " "; size_t p = 0; while (p < got.size() && p < fresh.size() && got[p] == fresh[p]) ++p;
-                    JObj o; o.kv("font", rt.font).kv("face_options", rt.opts).kv("hinted", rt.hinted).kv("kind", "history_dependence").kv("history_ops", hs).kv("state_key", key)
-                        .kv("first_difference", fresh.substr(p > 80 ? p - 80 : 0, 200) + " <> " + got.substr(p > 80 ? p - 80 : 0, 200)); report_fail(ci, o); failed = true; }
+                ++states;
+                for (size_t pi = 0; pi < pl.size() && !failed; ++pi) { std::string got = run_probe(w, rt, pl[pi]); const std::string &want = fresh[pi];
+                    if (got != want) { std::string hs; for (int o : n.hist) hs += std::to_string(o) + " "; size_t p = 0; while (p < got.size() && p < want.size() && got[p] == want[p]) ++p;
+                        JObj o; o.kv("font", rt.font).kv("face_options", rt.opts).kv("hinted", rt.hinted).kv("kind", "history_dependence").kv("history_ops", hs).kv("state_key", key).kv("probe_index", (unsigned long long)pi).kv("probes_before_it_in_this_state", (unsigned long long)pi)
+                            .kv("first_difference", want.substr(p > 80 ? p - 80 : 0, 200) + " <> " + got.substr(p > 80 ? p - 80 : 0, 200)); report_fail(ci, o); failed = true; } }
                 if (int(n.hist.size()) < maxdepth) { for (int o = 0; o < NOPS; ++o) if (enabled(w, rt, o)) { Node m; m.hist = n.hist; m.hist.push_back(o); q.push_back(m); } }
                 else if (!plain) frontier_emptied = false;
             }
